@@ -110,3 +110,40 @@ Theorem C05_altered_d1_refused : forall (K : Fld), FldOk K -> forall (M : Mod K)
   product K M H Gb G Hs bits Vs promises A A1 B LR y z e es r1 s1 d1' w' <> v0 M.
 Proof. intros K Kok M Mok H Gb G Hs Hi. exact (altered_d1_refused K Kok M Mok H Gb G Hs Hi). Qed.
 Print Assumptions C05_altered_d1_refused.
+
+(** All response scalars at once: over independent generators the statement, the proof's points and the challenges
+    DETERMINE the responses an accepting verifier can see — two accepted proofs that differ only in (r1, s1, d1) are the same
+    proof; simultaneous compensating changes are excluded too (the three theorems above are instances). *)
+From BP Require Import Proofs.UniqueP.
+Theorem C05_responses_unique : forall (K : Fld), FldOk K -> forall (M : Mod K), ModOk K M -> forall (H : M) (Gb G Hs : list M),
+  independent K M H Gb G Hs ->
+  forall bits Vs promises A A1 B LR (y z e : K) es,
+  length G = 2 ^ length es -> length Hs = 2 ^ length es -> length LR = length es ->
+  Forall (fun c => c <> f0 K) es -> e <> f0 K ->
+  forall r1 s1 d1 r1' s1' d1', length d1 = length Gb -> length d1' = length Gb ->
+  accepts K M H Gb G Hs bits Vs promises A A1 B LR y z e es r1 s1 d1 ->
+  accepts K M H Gb G Hs bits Vs promises A A1 B LR y z e es r1' s1' d1' ->
+  r1' = r1 /\ s1' = s1 /\ d1' = d1.
+Proof. intros K Kok M Mok H Gb G Hs Hi. exact (responses_unique K Kok M Mok H Gb G Hs Hi). Qed.
+Print Assumptions C05_responses_unique.
+
+(** ... and at the top of the executed model: if [verify_chunk] accepts a one-member chunk (back end: identity) and also
+    accepts the member carrying OTHER response bytes ([with_responses]: same statement, points and challenges — the
+    responses are not absorbed before the last challenge) with the back end again finding the identity, then the other
+    bytes denote the same scalars.  Contrapositive: altering any response scalar of an accepted triple makes the product the
+    model hands to the back end differ from the identity under every non-zero weight — the verdict is an error.  All guard
+    facts are extracted from the acceptance itself; [member_wf] is the constructor invariants and the oracle's shape. *)
+From BP Require Import Model.Codec Model.Prover Proofs.TopP Proofs.BatchP.
+Theorem C05_accepted_responses_unique : forall (K : Fld), FldOk K -> forall (M : Mod K), ModOk K M ->
+  forall (ofN : N -> K) (dec : N -> M) (H : M) (Gb G Hv : list M) mode (mb : member K) (r1' s1' : N) (d1' : list N) (w w' : K) masks sc masks' sc',
+  let mb' := with_responses K mb r1' s1' d1' in
+  let Nn := mb_N K mb in
+  independent K M H Gb (firstn Nn G) (firstn Nn Hv) ->
+  mode <> RecoverOnly -> w <> f0 K -> w' <> f0 K -> member_wf K M Gb mb -> (Nn <= length G)%nat -> (Nn <= length Hv)%nat ->
+  verify_chunk K ofN mode [mb] [w] true = (Ok masks, Some sc) ->
+  vadd M (msm (fst sc) (interleaveM K M G Hv)) (msm (snd sc) (dyn_of K M (pts_of K M dec mb) ++ Gb ++ [H])) = v0 M ->
+  verify_chunk K ofN mode [mb'] [w'] true = (Ok masks', Some sc') ->
+  vadd M (msm (fst sc') (interleaveM K M G Hv)) (msm (snd sc') (dyn_of K M (pts_of K M dec mb') ++ Gb ++ [H])) = v0 M ->
+  ofN r1' = ofN (p_r1 (mb_proof K mb)) /\ ofN s1' = ofN (p_s1 (mb_proof K mb)) /\ map ofN d1' = map ofN (p_d1 (mb_proof K mb)).
+Proof. exact accepted_responses_unique. Qed.
+Print Assumptions C05_accepted_responses_unique.
